@@ -62,6 +62,9 @@ def run(ctx):
                       "auto-append of check_on_set=False (known finding R18.f)", floor=30)
     ctx.rule("R02.p", "the post-store hook cannot reject: no _post_setter override, nor any method of the same Parameter type it calls on itself (transitively, generators included), contains a "
                       "raise statement -- the hook runs after the value was stored, so a rejection raised there leaves the value (and, for Composite, the constituents already assigned) behind", floor=2)
+    ctx.rule("R02.d", "Dynamic set model: Dynamic.__set__ interpreted (instance / class route; a number, a generator, a callable reference resolving to a number or to a generator): generator state is "
+                      "attached to the value that was stored when it is a callable, never to the reference itself (a bound method cannot carry it: the assignment would raise after the store "
+                      "and the link)", floor=1)
     ctx.rule("R02.m", "setter model: Parameter.__set__ interpreted abstractly on every combination (576) of route x constant/readonly x validation outcome x identity x reference mode x watchers x batching agrees with the specification of this property (see checks/setter_model.py)", floor=1)
     ctx.rule("R02.u", "update model: Parameters._update interpreted abstractly (entry batching flag x key orders incl. an Event key x a rejected or unknown key at every position x a value identical to the current one, 60 cases): flag restored, flush exactly once iff outermost and after the restore, keys applied in order up to the failing one, Event mode and reset, complete previous-values mapping", floor=1)
     ctx.not_decided += ["that callees are effect-free before their own raises (Composite._post_setter assigns constituents one by one)",
@@ -229,6 +232,9 @@ def run(ctx):
             h, n = hit
             ctx.fail("R02.p", h, n, "%s (run after the value was stored%s) rejects the assignment: `%s` -- the stored value, and whatever the hook already did, stay behind" % (
                 g.qualname, "" if h is g else ", through %s" % h.name, ast.unparse(n)[:80]), key="%s::post-setter-rejects::%s" % (g.qualname, h.name))
+
+    from checks.shared import dynamic_set_model
+    dynamic_set_model(ctx, "R02.d")
 
     # model-level rule, run last (see DESIGN §10)
     from checks import setter_model
